@@ -9,6 +9,7 @@ import Driver.SM
 import Driver.Conn
 import Driver.Alias
 import Driver.Sctp
+import Driver.Client
 /-!
   Driver — reads correspondence lines `domain op args… => impl-output` on stdin and prints,
   per line, tab-separated: index, agree|DISAGREE|BADLINE, Spec verdicts (comma separated or
@@ -95,6 +96,12 @@ def handle (st : St) (idx : Nat) (line : String) : St × String :=
       (match (kv rest "b").bind fromHex with
        | some b => (st, emit idx impl (judgeRetry ((kvNat rest "r").getD 0) (parseOutcomes ((kv rest "outs").getD "-")) b implToks))
        | none => bad)
+    | "smclient" :: "cea" :: _ => (st, emit idx impl (judgeCEA dict implToks))
+    | "smclient" :: "dial" :: rest =>
+      (st, emit idx impl (judgeDial dict ((kvNat rest "r").getD 0) ((kvNat rest "cfg").getD 0) ((kvNat rest "wf").getD 0)
+        ((kv rest "beh").getD "-") ((kv rest "post").getD "-") implToks))
+    | "smclient" :: "wd" :: rest =>
+      (st, emit idx impl (judgeWD dict ((kvNat rest "r").getD 0) ((kv rest "beh").getD "-") implToks))
     | "sctp" :: "demux" :: rest =>
       let fin := if kv rest "fin" = some "err" then Fin.err else Fin.eof
       (st, emit idx impl (judgeSctpDemux dict fin ((kv rest "chunks").getD "-") implToks))
